@@ -64,6 +64,13 @@ def gen_inputs(ctx):
                       {"from": 0, "i": idx4(1)}, {"from": 0, "i": idx4(0)}]
             root = pub_parent(rng, k, depth=rng.choice([0, 1, 3, 5]))
             out.append(("CkdSeq", {"root": root, "steps": steps}, ("pubseq", order[0] > order[1], root["depth"] == 0)))
+    # only the public child is kept by the caller (the parent object is gone before anything is printed)
+    import copy
+    base = [x for x in out if x[0] == "CkdPub" and "prf" not in x[1] and x[2][0] == "pub"]
+    for a, inp, key in rng.sample(base, min(len(base), 6 if q else 80)):
+        inp2 = copy.deepcopy(inp)
+        inp2["drop"] = True
+        out.append((a, inp2, ("pub-parent-object-dropped",)))
     # the outcome kinds agree under a chosen PRF as well (IL*G = -K_par <=> IL = n - k_par)
     for k, kc in rng.sample(sc, 4 if q else 12):
         il = (N - k) % N
